@@ -133,12 +133,16 @@ def replay_doc(ctx, doc, n):
         if kind == "table":
             check_value(ctx, f"pc(DataFrame {df.values.tolist()})", lambda: prs.pc(df), want, "pc/table", rp)
             check_value(ctx, f"pc_joint(DataFrame {df.values.tolist()}, {cols})", lambda: prs.pc_joint(df, cols), want, "pc_joint/table", rp)
+            tok = ("|", "--", " ", "_")[n % 4]
+            check_value(ctx, f"pc_joint(DataFrame {df.values.tolist()}, {cols}, gap_token={tok!r})", lambda: prs.pc_joint(df, cols, gap_token=tok), want, "pc_joint/table/gap_token", rp)
             if len(cols) == 2 and not df.isna().any().any():
                 check_value(ctx, f"pc((colA, colB)) {df.values.tolist()}", lambda: prs.pc((list(df[cols[0]]), list(df[cols[1]]))), want, "pc/tuple", rp)
         else:
             df2 = table_of(b, variant)
             check_value(ctx, f"pc(DataFrame {df.values.tolist()}, DataFrame {df2.values.tolist()})", lambda: prs.pc(df, df2), want, "pc/table2", rp)
             check_value(ctx, f"pc_joint(df {df.values.tolist()}, {cols}, df2 {df2.values.tolist()})", lambda: prs.pc_joint(df, cols, df2), want, "pc_joint/table2", rp)
+            tok = ("|", "--", " ", "_")[n % 4]
+            check_value(ctx, f"pc_joint(df {df.values.tolist()}, {cols}, df2 {df2.values.tolist()}, gap_token={tok!r})", lambda: prs.pc_joint(df, cols, df2, gap_token=tok), want, "pc_joint/table2/gap_token", rp)
         if not before.equals(df):
             ctx.violation("pc/table/argument_mutated", f"pc/pc_joint modified the caller's table {before.values.tolist()}", rp)
 
